@@ -53,4 +53,5 @@ c49c330 C20
 7a3b114 C16
 70eb3db C16
 e416d58 C07
+341ef7e C19
 LIST
